@@ -44,6 +44,8 @@ pub struct SeqSpec {
   /// re-entrant subscriber: [on "next"/"terminal", action] - inside the callback the subscriber
   /// steps hot/subject source `i` (action >= 0), unsubscribes itself (-1); each entry fires once
   pub reenter: Vec<(bool, i64)>,
+  /// wrap the inner observables of flat_map in probe stages (C03)
+  pub probe_inners: bool,
 }
 
 pub fn src_to_json(s: &SrcSpec) -> Json {
@@ -99,6 +101,7 @@ pub fn spec_from_json(w: &Json) -> Option<SeqSpec> {
     tokens: w.b("tokens"),
     allow_threads: w.b("allow_threads"),
     drop_all: w.b("drop_all"),
+    probe_inners: w.b("probe_inners"),
     reenter: {
       let mut v = Vec::new();
       for r in w.a("reenter") {
@@ -142,6 +145,7 @@ pub struct SeqRun {
   pub samples: Vec<(u64, bool)>,
   pub subscribe_returned: u64,
   pub probes: Vec<pipe::ProbeLog>,
+  pub inner_probes: Vec<pipe::ProbeLog>,
   pub subject_counts_end: Vec<(usize, usize)>,
   pub taps: (u64, u64, u64),
   pub live_tokens: Option<usize>,
@@ -165,6 +169,7 @@ pub fn run_seq(spec: &SeqSpec, cfg: RunCfg) -> SeqRun {
     samples: Vec<(u64, bool)>,
     subscribe_returned: u64,
     probes: Vec<pipe::ProbeLog>,
+    inner_probes: Vec<pipe::ProbeLog>,
     subject_counts_end: Vec<(usize, usize)>,
     taps: (u64, u64, u64),
     steps_done: Vec<usize>,
@@ -176,6 +181,7 @@ pub fn run_seq(spec: &SeqSpec, cfg: RunCfg) -> SeqRun {
     samples: vec![],
     subscribe_returned: 0,
     probes: vec![],
+    inner_probes: vec![],
     subject_counts_end: vec![],
     taps: (0, 0, 0),
     steps_done: vec![0; spec.sources.len()],
@@ -213,6 +219,9 @@ pub fn run_seq(spec: &SeqSpec, cfg: RunCfg) -> SeqRun {
     let mut ctx = pipe::Ctx::new(obs);
     ctx.token = tok_for_run.clone();
     ctx.allow_threads = spec.allow_threads;
+    if spec.probe_inners {
+      ctx.inner_probes = Some(Arc::new(Mutex::new(Vec::new())));
+    }
     let o = match pipe::build(&spec.pipeline, &ctx) {
       Some(o) => o,
       None => return,
@@ -350,6 +359,12 @@ pub fn run_seq(spec: &SeqSpec, cfg: RunCfg) -> SeqRun {
         let p = p.lock().unwrap();
         g.probes.push(pipe::ProbeLog { subscribed: p.subscribed.clone(), events: p.events.clone() });
       }
+      if let Some(ip) = &ctx.inner_probes {
+        for p in ip.lock().unwrap().iter() {
+          let p = p.lock().unwrap();
+          g.inner_probes.push(pipe::ProbeLog { subscribed: p.subscribed.clone(), events: p.events.clone() });
+        }
+      }
     }
     if spec.drop_all {
       // the caller drops its Observable and Subscription handles and its own source handles
@@ -380,7 +395,7 @@ pub fn run_seq(spec: &SeqSpec, cfg: RunCfg) -> SeqRun {
   };
   let o = std::mem::replace(
     &mut *out.lock().unwrap(),
-    Out { built: false, subject_emits: vec![], unsubs: vec![], samples: vec![], subscribe_returned: 0, probes: vec![], subject_counts_end: vec![], taps: (0, 0, 0), steps_done: vec![] },
+    Out { built: false, subject_emits: vec![], unsubs: vec![], samples: vec![], subscribe_returned: 0, probes: vec![], inner_probes: vec![], subject_counts_end: vec![], taps: (0, 0, 0), steps_done: vec![] },
   );
   SeqRun {
     res,
@@ -392,6 +407,7 @@ pub fn run_seq(spec: &SeqSpec, cfg: RunCfg) -> SeqRun {
     samples: o.samples,
     subscribe_returned: o.subscribe_returned,
     probes: o.probes,
+    inner_probes: o.inner_probes,
     subject_counts_end: o.subject_counts_end,
     taps: o.taps,
     live_tokens,
